@@ -202,3 +202,36 @@ def _check(case: dict, w: dict, res: dict) -> None:
     res["nontrivial"] = bool(failed) or n > k_o or ref["shadowed"] or case["pmut"] != "none" or case["setup"] != {"ip": ["R"], "up": ["E"], "ipk": "str"}
     res["sample"] = {"import_path": w["dotted"], **ident["case"], "real": out, "cpython_K": k_o}
     res["shadow_differs"] = bool(k_o and o_kind == "return" and last["expr"].get("ok") and _val(last["expr"]["value"]) != _val(last["walk"]["value"]))
+
+
+EXITS = {"normal": "none", "exception": "ValueError:x05 leaving by exception", "interrupt": "KeyboardInterrupt:x05 leaving by interrupt"}
+
+
+def check_syspath(case: dict, workdir: str) -> list:
+    """griffe.sys_path used directly, against the EnterSysPath / ExitSysPath steps of the spec: `case` is an enumerated
+    case in which the sys.path mutation (if any) was executed, so ref.spcur / ref.splist say what must be left."""
+    global _COUNTER  # noqa: PLW0603
+    _COUNTER += 1
+    d = os.path.join(workdir, "s%d_%d" % (os.getpid(), _COUNTER))
+    os.makedirs(d)
+    viols = []
+    try:
+        w = world.build(case, d)
+        ref, setup = case["ref"], case["setup"]
+        for exit_kind, escaped in EXITS.items():
+            r = child.forked(child.run_syspath, w, case["pmut"], exit_kind)
+            if "crash" in r:
+                return [("die", f"sys_path child crashed: {r['crash']}", None)]
+            sig = {"clause": "", "setup": _setup_name(setup), "pmut": case["pmut"], "exit": exit_kind, "n": 0, "K": 0, "fail": "none", "got": "none"}
+            ident = {"case": {k: case[k] for k in ("n", "mk", "body", "at", "setup", "pmut")}, "tlc": case, "direct": "sys_path"}
+            call = f"with griffe.sys_path(*{setup['ip']}) [user sys.path {setup['up']}, body does {case['pmut']}, exit {exit_kind}]"
+            want_inside = setup["ip"] or setup["up"]
+            if not r["entered"] or r["inside"] != want_inside or r["inside_same"] != (not setup["ip"]):
+                viols.append((dict(sig, clause="ctx-inside"), f"{call}: inside sys.path = {r.get('inside')} (caller's list: {r.get('inside_same')}), contract {want_inside}", ident))
+            if r["escaped"] != escaped:
+                viols.append((dict(sig, clause="ctx-propagates"), f"{call}: exception leaving the block: {r['escaped']}, expected {escaped}", ident))
+            if r["same_list"] != (ref["spcur"] == "orig") or r["path"] != ref["splist"]:
+                viols.append((dict(sig, clause="ctx-restored"), f"{call}: afterwards same list={r['same_list']} {r['path']}, contract {ref['spcur']} {ref['splist']}", ident))
+    finally:
+        shutil.rmtree(d, ignore_errors=True)
+    return viols
